@@ -88,9 +88,11 @@ class Agg(object):
         self.envelope_skips = collections.Counter()
         self.samples = []
         self.digests = {}
+        self.slowest = (0.0, -1)     # (CPU seconds, run index) of the most expensive run: has to stay far below RUN_LIMIT_S
 
     def add(self, k, scenario, res, keep_sample=False):
         self.runs += 1
+        self.slowest = max(self.slowest, (round(getattr(res, 'cpu_s', 0.0), 3), k))
         if res.discarded:
             self.discarded += 1
         self.evals += res.evals
@@ -123,6 +125,7 @@ class Agg(object):
         self.envelope_skips.update(o.envelope_skips)
         self.samples += o.samples
         self.digests.update(o.digests)
+        self.slowest = max(self.slowest, o.slowest)
 
 
 class _Sink(object):
@@ -163,14 +166,20 @@ def _limit_memory():
 
 def run_quiet(prop, scenario):
     """Runs one scenario. rtamt prints from inside some operations (e.g. the discrete ln operation): keep that
-    off our stdout. A run that exceeds RUN_LIMIT_S wall seconds (normal runs take milliseconds) is reported as
-    the violation clause 'hang' (it still has to reproduce in the fresh-interpreter replay)."""
+    off our stdout. A run that uses more than RUN_LIMIT_S seconds of CPU time of this process (ITIMER_VIRTUAL: independent of
+    the load of the machine; normal runs take milliseconds) is reported as the violation clause 'hang' (it still has to
+    reproduce in the fresh-interpreter replay). A wall-clock backstop of 15 x RUN_LIMIT_S catches a run that blocks without
+    using the CPU (nothing in rtamt can, but a change might).
+    (Until round k the limit was wall time: under load a legitimate 18 s scenario of C18 was reported as 'hang', DESIGN 8.2.)"""
     import contextlib
     import signal
     _limit_memory()
     old = signal.signal(signal.SIGALRM, _on_alarm)
+    old_v = signal.signal(signal.SIGVTALRM, _on_alarm)
     limit = float(getattr(prop, 'RUN_LIMIT_S', RUN_LIMIT_S))
-    signal.setitimer(signal.ITIMER_REAL, limit)
+    signal.setitimer(signal.ITIMER_VIRTUAL, limit)
+    signal.setitimer(signal.ITIMER_REAL, 15 * limit)
+    cpu0 = time.process_time()
     from . import monitors as _M
     restore_env = _M.set_env(scenario.get('_env') if isinstance(scenario, dict) else None)
     try:
@@ -188,6 +197,7 @@ def run_quiet(prop, scenario):
                     res.faults['cohosted_twin_object'] += 1
                 if env.get('failed_eval') is not None and _M.FAILED_USES[0]:
                     res.faults['object_failed_on_a_damaged_log_before'] += 1
+            res.cpu_s = time.process_time() - cpu0
             return res
     except RunTimeout:
         res = Result()
@@ -213,8 +223,10 @@ def run_quiet(prop, scenario):
         res.obs.append(['malformed-result', type(e).__name__])
         return res
     finally:
+        signal.setitimer(signal.ITIMER_VIRTUAL, 0)
         signal.setitimer(signal.ITIMER_REAL, 0)
         signal.signal(signal.SIGALRM, old)
+        signal.signal(signal.SIGVTALRM, old_v)
         restore_env()
 
 
@@ -637,6 +649,7 @@ def run_check(prop_name, tier, replay=None, digests=None, quiet=False, runs_over
             'runs_discarded_reference_undefined': agg.discarded,
             'runs_per_hour': int(completed / max(wall, 1e-9) * 3600),
             'workers': W,
+            'slowest_run': {'cpu_s': agg.slowest[0], 'run': agg.slowest[1], 'limit_s': float(getattr(prop, 'RUN_LIMIT_S', RUN_LIMIT_S))},
             'real_api_calls': agg.api_calls,
             'simulated_time_covered': {'amount': round(agg.sim_time, 3), 'unit': getattr(prop, 'SIM_TIME_UNIT', 'samples')},
             'fault_kinds_fired': dict(sorted(agg.faults.items())),
@@ -659,9 +672,9 @@ def run_check(prop_name, tier, replay=None, digests=None, quiet=False, runs_over
     os.makedirs(evdir, exist_ok=True)
     with open(os.path.join(evdir, prop.ID + '.json'), 'w') as f:
         f.write(json.dumps(ev, indent=1, sort_keys=True, default=_jdefault))
-    print('property=%s runs=%d/%d discarded=%d evals=%d nontrivial=%d states=%d interleavings=%d wall=%.1fs faults=%s' %
+    print('property=%s runs=%d/%d discarded=%d evals=%d nontrivial=%d states=%d interleavings=%d wall=%.1fs slowest_run=%.2fs(cpu, run %d) faults=%s' %
           (prop.ID, completed, n_runs, agg.discarded, agg.evals, len(agg.nontrivial), len(agg.states),
-           len(agg.interleavings), wall, dict(agg.faults)))
+           len(agg.interleavings), wall, agg.slowest[0], agg.slowest[1], dict(agg.faults)))
     if completed < n_runs:
         print('NOTE: %s after %d of %d runs' % ('stopped after the first failing run (VERIF_STOP_FLAG)' if os.environ.get('VERIF_STOP_FLAG')
                                                  else 'wall-clock cap reached', completed, n_runs))
